@@ -489,3 +489,52 @@ def method_call(obj_regex, method, build, name=None, min_count=0):
         ex.rules_fired.append((name or ('.%s()' % method), n))
         return body
     return rule
+
+
+def eval_if_constexpr(cond_eval, min_count=0):
+    """Partial evaluation of `if constexpr (C) {A} [else {B}]` for one
+    configuration: cond_eval(normalised C) -> True / False (unknown conditions
+    raise ExtractionBroken).  The selected branch is kept verbatim as a plain
+    block, the other one is dropped (and recorded)."""
+    rx = re.compile(r'\bif\s+constexpr\s*\(')
+
+    def rule(ex, body):
+        n = 0
+        pos = 0
+        while True:
+            m = rx.search(body, pos)
+            if not m:
+                break
+            op = m.end() - 1
+            cp = match_close(body, op, '(', ')')
+            cond = norm_ws(body[op + 1:cp])
+            val = cond_eval(cond)
+            if val is None:
+                raise ExtractionBroken("if constexpr (%s): condition not known to the partial evaluator in %s" % (cond, ex.where()))
+            mo = re.compile(r'\s*\{').match(body, cp + 1)
+            if not mo:
+                raise ExtractionBroken("if constexpr without block in %s" % ex.where())
+            ob = mo.end() - 1
+            cb = match_close(body, ob)
+            then_txt = body[ob:cb + 1]
+            end = cb + 1
+            else_txt = ''
+            me = re.compile(r'\s*else\s*\{').match(body, end)
+            if me:
+                eob = me.end() - 1
+                ecb = match_close(body, eob)
+                else_txt = body[eob:ecb + 1]
+                end = ecb + 1
+            elif re.compile(r'\s*else\b').match(body, end):
+                raise ExtractionBroken("if constexpr ... else without block in %s" % ex.where())
+            keep = then_txt if val else (else_txt or '{ }')
+            ex.dropped.append('if constexpr (%s) evaluated %s for this configuration: %s branch dropped'
+                              % (cond, val, 'else' if val else 'then'))
+            body = body[:m.start()] + keep + body[end:]
+            pos = m.start()
+            n += 1
+        if n < min_count:
+            raise ExtractionBroken("if-constexpr rule fired %d times (expected >= %d) in %s" % (n, min_count, ex.where()))
+        ex.rules_fired.append(('if constexpr partial evaluation', n))
+        return body
+    return rule
